@@ -256,12 +256,23 @@ def run(repo, rep, tier):
 
     # ---- rule 3: consumers ----------------------------------------------------------------------------------------------------
     callers = sorted(func_id(a) for a, s, k in cg.callers(cv))
-    rep.check('consumers', 'compare_version consumers: recommendation filter, between_versions, compatibility line', set(callers) >= {'algorithms:Algorithms.get_recommendations', 'software:Software.between_versions', 'ssh_audit:output_compatibility'}, cv, 'compare_version callers: %s' % callers,
-              sample={'rule': 'consumers', 'callers': callers})
     gr = repo.func('algorithms', 'Algorithms.get_recommendations')
-    gate = [n for n in walk_no_nested(gr) if isinstance(n, ast.Compare) and 'compare_version(ssh_version)' in unparse(n)]
-    ok = len(gate) == 1 and isinstance(gate[0].ops[0], ast.Lt) and unparse(gate[0].comparators[0]) == '0'
-    rep.check('consumers', 'availability: a version entry is skipped iff the server is older (compare_version(first appeared) < 0)', ok, gate[0] if gate else gr, 'availability gate changed')
+    reach_gr = {func_id(f) for f in cg.reachable([gr])}
+    rep.check('consumers', 'compare_version consumers: recommendation filter, between_versions, compatibility line', 'software:Software.compare_version' in reach_gr and set(callers) >= {'software:Software.between_versions', 'ssh_audit:output_compatibility'}, cv, 'compare_version callers: %s' % callers,
+              sample={'rule': 'consumers', 'callers': callers})
+    # availability: an entry that first appeared in release V is recommended for addition to a server of release S exactly when S >= V numerically -- the
+    # recommendation pass interpreted (props/_recommend.py) with a software object whose compare_version() is the numeric order, at the boundaries 9.4 / 9.5 / 9.6
+    # around an entry of 9.5 and 10.2 / 10.10 around an entry of 10.2
+    from props import _recommend as _R
+    _prods = _R.products(repo)
+    badv = []
+    for sw in (('OpenSSH', '9.4'), ('OpenSSH', '9.5'), ('OpenSSH', '9.6'), ('OpenSSH', '10.1'), ('OpenSSH', '10.2'), ('OpenSSH', '10.10')):
+        got = _R.run(repo, _R.OFFERS['nothing'], sw).get(2, {}).get('kex', {}).get('add', {})
+        want = _R.expected(_prods, _R.OFFERS['nothing'], sw).get(2, {}).get('kex', {}).get('add', {})
+        rep.evals()
+        if set(got) != set(want):
+            badv.append('%s %s: additions %s, expected %s' % (sw[0], sw[1], sorted(got), sorted(want)))
+    rep.check('consumers', 'availability: a version entry counts iff the server is not older than the release it first appeared in', not badv, gr, 'availability gate changed -- %s' % (badv[0] if badv else ''), stmt='availability gate')
     bv = repo.func('software', 'Software.between_versions')
     t = unparse(bv)
     rep.check('consumers', 'between_versions: from <= self <= till via compare_version', 'self.compare_version(vfrom) < 0' in t and 'self.compare_version(vtill) > 0' in t, bv, 'between_versions changed')
